@@ -11,7 +11,7 @@ cp /verif/known_findings.json "$W/verif/"
 sed -i "s|/repo/|$W/repo/|g" "$W/verif/sim/Cargo.toml"
 cd "$W/verif/sim" && CARGO_NET_OFFLINE=true cargo build --release --offline > "$W/build.log" 2>&1 || { echo "build failed"; tail -20 "$W/build.log"; cd /; git -C /repo worktree remove --force "$W/repo"; rm -rf "$W"; exit 2; }
 (ulimit -v 60000000; VERIF_ROOT="$W/verif" ./target/release/a2lsim check "$PROP" "$TIER" > "$W/check.log" 2>&1); RC=$?
-echo "$(basename "$PATCH") $PROP $TIER exit=$RC $(grep -m1 '^violation:' "$W/check.log" | sed 's/ (tape.*//' | cut -c1-170)"
-grep -E "^runs=" "$W/check.log" | cut -c1-120
+echo "$(basename "$PATCH") $PROP $TIER exit=$RC $(grep -a -m1 '^violation:' "$W/check.log" | sed 's/ (tape.*//' | cut -c1-170)"
+grep -a -E "^runs=" "$W/check.log" | cut -c1-120
 cd /; git -C /repo worktree remove --force "$W/repo"; rm -rf "$W"
 exit $RC
